@@ -45,6 +45,8 @@ CASES = {
  "shallow copy": "import copy\ndef f(a, b):\n    l = [[1], [2]]\n    s = copy.copy(l); d = copy.deepcopy(l); t = list(l)\n    l[0].append(9)\n    return s[0], d[0], t[0]\n",
  "bool is int / hash eq": "def f(a, b):\n    d = {1: 'a'}\n    d[True] = 'b'\n    d[1.0] = 'c'\n    return d, isinstance(True, int), sum([True, True])\n",
  "float formatting": "def f(a, b):\n    return f'{0.1 + 0.2}', str(1e16), repr(float('1e22')), '%g' % 1234567.0, f'{2.50:.1f}', f'{1/3:.3g}', int(2**53 + 1.0)\n",
+ "namedtuple helpers": "import collections\nPt = collections.namedtuple('Pt', 'x y')\ndef f(a, b):\n    p = Pt(1, y=2)\n    q = p._replace(y=5)\n    return Pt._fields, p._asdict(), q.y, Pt._make([7, 8]).x, p == (1, 2)\n",
+ "incremental decoder state": "import codecs\ndef f(a, b):\n    d = codecs.getincrementaldecoder('utf-16')()\n    one = d.decode(b'\\xfe\\xff\\x00A', True)\n    two = d.decode(b'\\xfe\\xff\\x00B', True)\n    return one, two, b'\\xff\\xfeA\\x00'.decode('utf-16'), b'\\x80'.decode('cp1252'), b'\\x80'.decode('latin-1')\n",
  "cache helper": "import functools\n@functools.cache\ndef g(x):\n    return x * 2\ndef f(a, b):\n    return g(4)\n",
  "reduce": "import functools, operator\ndef f(a, b):\n    return functools.reduce(operator.or_, [1, 2, 4], 0)\n",
  "global counter": "N = 0\ndef f(a, b):\n    global N\n    N += 1\n    return N\n",
